@@ -38,7 +38,8 @@ def run(tier):
     pyg = 86400 * 3 + 3600 * 5 if q else 6 * 3600 + 1800
     big = [["recon-x", "--grid", 120 if q else 1, "--nbhd", 120 if q else 3600, "--pygrid", pyg],
            ["recon-b", "--grid", 120 if q else 1, "--nbhd", 120 if q else 3600, "--pygrid", pyg],
-           ["tz2025b", "--grid", 120 if q else 1, "--nbhd", 120 if q else 3600, "--pygrid", pyg]]
+           ["tz2025b", "--grid", 120 if q else 1, "--nbhd", 120 if q else 3600, "--pygrid", pyg],
+           ["features", "--grid", 30 if q else 1, "--nbhd", 120 if q else 3600, "--pygrid", 86400 if q else 6 * 3600 + 1800]]
     if not q:
         big.append(["tz2025b-raw", "--grid", 5])
         big.append(["recon-x", "--grid", 60, "--nbhd", 30, "--san", "--targets", "arduino"])
@@ -82,7 +83,8 @@ def run(tier):
         "evaluations": int(stats.get("py.probes", 0) + stats.get("ar.sweep.probes", 0)),
         "distinct_nontrivial": int(stats.get("py.segments_crossed", 0) + stats.get("ar.sweep.segments_crossed", 0)),
         "rule": "programs = TZ sources: (1) the Zone/Rule/Link lines recorded beside the shipped zonedb and zonedbx tables (2020d), "
-                "(2) the real tzdata 2025b release expanded lexically from zic's compact dialect with %%z rewritten the way tzdata's "
+                "(1b) a hand-written source exercising features real data rarely shows after 2000 (seconds in UNTIL/AT/STDOFF, fixed SAVE, "
+                "multi-character letters, 24:00/25:00, names with +/-), (2) the real tzdata 2025b release expanded lexically from zic's compact dialect with %%z rewritten the way tzdata's "
                 "rearguard does (zic output byte-identical before/after%s), (3) %d seed-driven mutants of 9..29 zones (AT/UNTIL times "
                 "incl. 24:00/25:00 and s/u/g/z suffixes, ON forms, FROM/TO, SAVE -1:00..2:45, letters, STDOFF steps, era splits, "
                 "added/removed rules, fixed SAVE, link retargeting; year ranges 2000..2050 / 2000..2038 / 2010..2030). Each "
